@@ -2208,7 +2208,19 @@ class Evaluator:
         conds = tuple(c for c in conj if c != ("inloop", nl))
         self.loops[nl].conds = conds
         self.inlined.append(qual)
-        return ("comp", "gen", inst(y.term), ((nl, self.loops[nl].iter, conds),))
+        elt = self._retype(inst(y.term), self._record_class_of_annotation(getattr(cs.node, "returns", None), cs.module, element=True))
+        return ("comp", "gen", elt, ((nl, self.loops[nl].iter, conds),))
+
+    def _retype(self, v, rci):
+        """events carry records as tuples: where the annotation says `Rec`, the value is a record again"""
+        if rci is None:
+            return v
+        nf = len([st for st in rci.node.body if isinstance(st, ast.AnnAssign)])
+        if v[0] == "ite":
+            return ITE(v[1], self._retype(v[2], rci), self._retype(v[3], rci))
+        if v[0] == "tuple" and len(v[1]) == nf:
+            return ("call", ("global", rci.qual, "class"), v[1], ())
+        return v
 
     def _splice_generator(self, call_term, live, depth=0):
         """Open up `helper(...)`, a new generator function with a single `yield v` / `yield from xs` inside its loop(s).
@@ -2276,6 +2288,7 @@ class Evaluator:
             ylive = AND(ylive, ("inloop", xl))
             val = ("elem", xl)
         post = [(e, inst2, idmap, qual) for e in after] + post_all
+        val = self._retype(val, self._record_class_of_annotation(getattr(cs.node, "returns", None), cs.module, element=True))
         return yl, val, AND(*conjuncts(ylive)), post, qual
 
     def _element_record_class(self, it):
